@@ -77,6 +77,24 @@ def _tags():
 TAGS = _tags()
 
 
+def _tag_variants():
+    """Near-tags: blanks, newlines, slashes and case in every position of a
+    start / end / self-closing tag.  The tokenizer's tag pattern and the
+    patterns tag_fn() re-parses the token with must agree on each of them."""
+    out = []
+    for t in ("b", "div", "span", "br", "pre", "nowiki", "ref", "li", "td",
+              "table", "math", "hr"):
+        out += [f"</ {t}>", f"</\t{t}>", f"< {t}>", f"<{t} >", f"</{t} >",
+                f"</{t}\n>", f"<{t}\n>", f"<{t}/ >", f"< /{t}>", f"<{t}",
+                f"</{t}", f"<{t.upper()}>", f"</{t.upper()}>", f"<{t}//>",
+                f"</{t}/>", f"</{t} x>", f"<{t} / >", f"<{t}\t/>", f"<-{t}>",
+                f"</-{t}>", f"</{t}1>", f"<{t}:x>"]
+    return out
+
+
+TAG_VARIANTS = _tag_variants()
+
+
 def tag_with_attrs():
     return st.builds(
         lambda t, a, sl: f"<{t}{a}{sl}>",
@@ -92,6 +110,7 @@ def token():
         st.sampled_from(STRUCT),
         st.sampled_from(TEXT),
         st.sampled_from(TAGS),
+        st.sampled_from(TAG_VARIANTS),
         st.sampled_from(COMPOSITE),
         tag_with_attrs(),
         st.sampled_from(MAGIC_WORDS),
